@@ -121,7 +121,12 @@ func vCheckPerWorkload(op string, w *vWorld, done map[string]bool, preAm, preAp 
 func VerifRemoveOp(arg string) {
 	c, w, _ := vMkWorldOn(2, vParam(arg, "fault", 14), vParam(arg, "nodes", 1))
 	_, preAm, preAp := vSnapshot(w)
-	ch, err := c.RemoveWorkload(context.Background(), []string{"w1", "w2"}, true)
+	ctx, cancel := context.WithCancel(context.Background())
+	defer cancel()
+	if vParam(arg, "cancel", 0) == 1 {
+		w.cancelCaller = cancel // the caller's context may end while a container is being removed
+	}
+	ch, err := c.RemoveWorkload(ctx, []string{"w1", "w2"}, true)
 	done := map[string]bool{}
 	if err == nil {
 		for m := range ch {
